@@ -315,9 +315,9 @@ func main() {
 		r.Inconclusive("astool does not build: " + err.Error())
 		os.Exit(r.Finish())
 	}
-	runs, nExt := 3, 1
+	runs, nExt := 32, 1
 	if *tier == "thorough" {
-		runs, nExt = 24, 10
+		runs, nExt = 64, 10
 	}
 	if *onlyExt >= 0 {
 		runs, nExt = 1, *onlyExt+1
@@ -327,7 +327,7 @@ func main() {
 	firstDir := ""
 	var mu sync.Mutex
 	var wg sync.WaitGroup
-	sem := make(chan struct{}, 8)
+	sem := make(chan struct{}, 16)
 	hashes := make([]map[string]string, runs)
 	for i := 0; i < runs; i++ {
 		wg.Add(1)
